@@ -13,10 +13,10 @@
    Reference candidates: the walk over the collected declarations is Model/Ref.v (match_walk, Target.Address); this
    file supplies what Reference.CompletionAtPos hands to it at every leaf - expected scope and type (of the
    constraint, the operand, the element, the parameter ...), typed text, edit range - through the parameter [refs],
-   so that the addresses offered are compared exactly and in order.  Function candidates are not enumerated here
-   (Model/FuncCands.v does that); what is modelled of them is WHERE they may appear and WHICH edit range they
-   carry: a [VOpq kind range] item stands for any number of candidates of that kind with that edit range (also used
-   for references when a case carries no declarations).
+   so that the addresses offered are compared exactly and in order.  Function candidates likewise: Model/FuncCands.v (matchingFunctions) enumerates them from the typed text and
+   the expected return type this file supplies, through the parameter [fns].  Where a case carries no declarations / return
+   types (or go-cty's verdict for a pair of types is missing), a [VOpq kind range] item stands for any number of candidates
+   of that kind with that edit range.
 
    Function calls: the argument slot the cursor belongs to (with the recovery of a trailing comma) and the
    parameter type it is completed against.
@@ -32,7 +32,7 @@
 From Coq Require Import String Ascii List ZArith Bool.
 From HV Require Import Base.Sexp Base.Str Base.SortSpec Base.Pos Model.Addr Model.DepKeys Model.Schema Model.Ast Model.Merge
                        Model.Ref Model.Collect Model.Origins Model.ValueTargets Model.BodyQueries Model.ValueTokens
-                       Model.Completion Model.Snippet Model.ValueHover Gen.Consts.
+                       Model.Completion Model.Snippet Model.ValueHover Model.FuncCands Gen.Consts.
 Import ListNotations.
 Open Scope list_scope.
 Open Scope string_scope.
@@ -395,6 +395,9 @@ Section Descent.
      function of (expected scope, expected type, typed text, edit range): the addresses offered, in order; None where
      the case carries no declarations (the references are then compared by place and edit range only) *)
   Variable refs : string -> ty -> string -> range -> option (list string).
+  (* functionExpr.matchingFunctions (Model/FuncCands.v) as a function of (typed text, expected return type): the
+     candidates (label, text, snippet) in order; None where the case carries no return types *)
+  Variable fns : string -> ty -> option (list fcand).
   Variable p : pos.
   Variable rec : constraint -> cexpr -> vres.
   Variable rec_td : cexpr -> vres.       (* type declarations *)
@@ -824,15 +827,21 @@ Section Descent.
         end
     end.
 
-  Definition fn_items (e : cexpr) : vres :=
+  Definition fn_cands (t : ty) (prefix : string) (sb eb : Z) : list vitem :=
+    match fns prefix t with
+    | Some l => map (fun c => VC kFunction (Some (fc_label c)) (Some (fc_newtext c)) (Some (fc_snippet c)) (Some false) sb eb) l
+    | None => [VOpq kFunction sb eb]
+    end.
+
+  Definition fn_items (t : ty) (e : cexpr) : vres :=
     match e with
-    | CEmpty => vret [VOpq kFunction P P]
+    | CEmpty => vret (fn_cands t "" P P)
     | CExpr x =>
         match se_node x with
         | NTrav root [TSRoot rr] _ =>
             let plen := (P - rs rr)%Z in
             if Z.ltb plen 0 || Z.ltb (Z.of_nat (String.length root)) plen then vnil
-            else vret [VOpq kFunction (rs (se_rng x)) (re (se_rng x))]
+            else vret (fn_cands t (String.substring 0 (Z.to_nat plen) root) (rs (se_rng x)) (re (se_rng x)))
         | NTrav _ _ _ => vnil
         | NOther => vskip
         | _ => vnil
@@ -853,10 +862,10 @@ Section Descent.
   Definition param_type (params : list ty) (varp : option ty) (i : nat) : option ty :=
     match nth_error params i with Some t => Some t | None => varp end.
 
-  Definition call_cands (x : sexpr) : vres :=
+  Definition call_cands (t : ty) (x : sexpr) : vres :=
     match se_node x with
     | NCall name nrng args =>
-        if contains_pos nrng p then vret [VOpq kFunction (rs (se_rng x)) (re (se_rng x))]
+        if contains_pos nrng p then vret (fn_cands t (String.substring 0 (Z.to_nat (P - rs nrng)) name) (rs (se_rng x)) (re (se_rng x)))
         else
           match alookup name funcs with
           | None => vnil
@@ -904,7 +913,7 @@ Section Descent.
     end.
 
   Definition leaf_cands (t : ty) (skip : bool) (e : cexpr) : vres :=
-    vapp (ref_items "" t e) (vapp (fn_items e) (vapp (literal_type_cands t skip e) (index_cands e))).
+    vapp (ref_items "" t e) (vapp (fn_items t e) (vapp (literal_type_cands t skip e) (index_cands e))).
 
   Fixpoint parts_at (parts : list sexpr) : option sexpr :=
     match parts with
@@ -962,7 +971,7 @@ Section Descent.
                     | None => vnil
                     end
               end
-        | NCall _ _ _ => call_cands x
+        | NCall _ _ _ => call_cands t x
         | NOther => vskip
         | _ => leaf_cands t skip e
         end
@@ -1008,10 +1017,10 @@ End Descent.
 
 Fixpoint value_cands (prefill : bool) (file : bytes) (opens : range_table) (empties : list range) (vals : list (range * sexp))
          (funcs : fsigs) (parens : range_table) (cparens : paren_table) (fname : string)
-         (refs : string -> ty -> string -> range -> option (list string)) (p : pos) (fuel : nat) (c : constraint) (e : cexpr) : vres :=
+         (refs : string -> ty -> string -> range -> option (list string)) (fns : string -> ty -> option (list fcand)) (p : pos) (fuel : nat) (c : constraint) (e : cexpr) : vres :=
   match fuel with
   | O => None
-  | S n => step_cands prefill file opens empties vals funcs parens fname refs p (value_cands prefill file opens empties vals funcs parens cparens fname refs p n)
+  | S n => step_cands prefill file opens empties vals funcs parens fname refs fns p (value_cands prefill file opens empties vals funcs parens cparens fname refs fns p n)
                       (type_cands file opens empties cparens p n) c e
   end.
 
@@ -1125,7 +1134,7 @@ Inductive vc_outcome := VCNotValue | VCCompared | VCUnmodelled | VCNotCompared |
 Definition run_value_cands (kind : string) (args : list sexp) : option sexp :=
   if String.eqb kind "valuecands" || String.eqb kind "valuecandsstat" then
     match args with
-    | [pf; mx; SStr file; toks; SList dec; b; bs; SList es; op; em; SList vs; SList fs; prn; SList cps; cvx; tsx; SList pairs] =>
+    | [pf; mx; SStr file; toks; SList dec; b; bs; SList es; op; em; SList vs; SList fs; prn; SList cps; cvx; tsx; frx; SList pairs] =>
         let tokens := match toks with SList ts => map_opt token_of_sexp ts | _ => None end in
         let lex_failed := match toks with SAtom _ => true | _ => false end in
         match as_bool pf, as_Z mx, map_opt decoded_of_sexp dec, Ast.body_of_sexp b, Schema.body_of_sexp bs,
@@ -1163,7 +1172,18 @@ Definition run_value_cands (kind : string) (args : list sexp) : option sexp :=
                                               end
                                           | _, _ => fun _ _ _ _ => None
                                           end in
-                                        match value_cands pf fb op em vs fs prn cps (r_file (b_rng b)) refs pp 40 (as_cons s) ce with
+                                        let fns : string -> ty -> option (list fcand) :=
+                                          match cvx, frx with
+                                          | SList cvl, SList frl =>
+                                              match map_opt conv_entry_of_sexp cvl, map_opt fdecl_of_sexp frl with
+                                              | Some cv, Some fds =>
+                                                  fun pfx t => if forallb (fun f => conv_has cv (fd_ret f) t) fds
+                                                               then Some (matching_functions (conv_lookup cv) fds pfx t) else None
+                                              | _, _ => fun _ _ => None
+                                              end
+                                          | _, _ => fun _ _ => None
+                                          end in
+                                        match value_cands pf fb op em vs fs prn cps (r_file (b_rng b)) refs fns pp 40 (as_cons s) ce with
                                         | Some (Some items) =>
                                             if items_match items ol' && sexp_eqb complete (sB true) then VCCompared
                                             else VCBad (SList [p; SList (map sexp_of_vitem items)])
